@@ -37,7 +37,15 @@
    NOT PROVED (correspondence + monitors only): programs with stored handles (a future created by Let and awaited
    later or twice, LOld leaves, value() on an existing future or batch item), ReadVar / Probe, contexts whose
    pause/resume raise; that a synchronous call returns at all (termination; "first return" is a hypothesis of the
-   two-state theorem); runs in which the guard fired. *)
+   two-state theorem); runs in which the guard fired.
+   WITHOUT THE HYPOTHESIS no_unwind FOR stree PROGRAMS (end of the file; proofs/MachineGuardFormsS.v): the stree
+   theorems whose hypothesis is no_unwind P n (start h s1) are restated with "the MAX_TASK_STACK_SIZE guard has not
+   fired before step n" in its place (MachineNoUnwind.stree_no_unwind_iff_guard_silent):
+   C02_delivered_only_when_all_siblings_done_stree_guard, C02_delivered_is_unwrap_of_own_outcomes_stree_guard,
+   C02_uncaught_failure_is_the_outcome_of_value_stree_guard, C02_uncaught_failure_ends_value_stree_guard,
+   C02_sync_call_stree_guard, C02_sync_delivered_is_outcome_of_awaited_stree_guard,
+   C02_sync_return_continues_caller_stree_guard, C02_sync_call_returns_sequential_outcome_stree_guard,
+   C02_sync_call_expression_returns_sequential_outcome_stree_guard. *)
 From Asynq Require Import Machine Seq proofs.ProgProofs proofs.MachineC08 proofs.MachineC01 proofs.MachineC02.
 
 Theorem C02_first_failing_future_wins : forall (A : Type) (look : A -> outcome) (s : ystruct A),
@@ -339,3 +347,118 @@ Theorem C02_uncaught_failure_is_the_outcome_of_value_unless_guard : forall P p n
   o = eval p \/ exists k, (k < n)%nat /\ guard_fires P (run P k (start h s1)) = true.
 Proof. exact (fun P p n o HP Ht => async_eq_seq_tree_unless_guard P HP p Ht n o). Qed.
 Print Assumptions C02_uncaught_failure_is_the_outcome_of_value_unless_guard.
+
+(* ==== the stree theorems WITHOUT an assumption about exceptions unwinding (proofs/MachineNoUnwind.v, MachineGuardFormsS.v) ====
+   [no_unwind P n (start h s1)] is replaced by "the MAX_TASK_STACK_SIZE guard has not fired before step n"; also with
+   synchronous calls FutureIsAlreadyComputed is proved unreachable (stree_no_unwind_iff_guard_silent), so the guard's
+   RuntimeError is the only exception that can unwind through asynq's frames.  Binders and conclusions are those of
+   the theorems of the same name without the suffix _guard. *)
+From Asynq Require Import proofs.MachineNoUnwind proofs.MachineGuardFormsS.
+Theorem C02_delivered_only_when_all_siblings_done_stree_guard : forall P, pointwise P -> forall p, stree p -> forall n t,
+  let h := fst (create [] (FTask p) (st0 P)) in
+  let s1 := snd (create [] (FTask p) (st0 P)) in
+  (forall k, (k < n)%nat -> guard_fires P (run P k (start h s1)) = false) ->
+  c_mode (run P n (start h s1)) = MResume t ->
+  exists tk, get t (c_st (run P n (start h s1))) = Some (mkFut None (KTask tk)) /\
+    forall x, In (RFut x) (leaves (tk_last tk)) -> computed x (c_st (run P n (start h s1))) = true.
+Proof. exact resume_guard_stree_guard. Qed.
+Print Assumptions C02_delivered_only_when_all_siblings_done_stree_guard.
+
+Theorem C02_delivered_is_unwrap_of_own_outcomes_stree_guard : forall P, pointwise P -> forall p, stree p -> forall n t,
+  let h := fst (create [] (FTask p) (st0 P)) in
+  let s1 := snd (create [] (FTask p) (st0 P)) in
+  (forall j, (j < n)%nat -> guard_fires P (run P j (start h s1)) = false) ->
+  c_mode (run P n (start h s1)) = MResume t ->
+  exists tk k spec, get t (c_st (run P n (start h s1))) = Some (mkFut None (KTask tk)) /\
+    tk_gen tk = Some k /\
+    c_mode (step P (run P n (start h s1))) =
+      MRun t (k (unwrap (look (c_st (run P n (start h s1)))) (tk_last tk))) /\
+    unwrap (look (c_st (run P n (start h s1)))) (tk_last tk) = unwrap (look_spec spec) (tk_last tk) /\
+    spec t = Some (evals (k (unwrap (look_spec spec) (tk_last tk)))).
+Proof. exact delivered_is_unwrap_stree_guard. Qed.
+Print Assumptions C02_delivered_is_unwrap_of_own_outcomes_stree_guard.
+
+Theorem C02_uncaught_failure_is_the_outcome_of_value_stree_guard : forall P p n o,
+  pointwise P -> stree p ->
+  let h := fst (create [] (FTask p) (st0 P)) in
+  let s1 := snd (create [] (FTask p) (st0 P)) in
+  (forall k, (k < n)%nat -> guard_fires P (run P k (start h s1)) = false) ->
+  c_mode (run P n (start h s1)) = MDone o -> o = evals p.
+Proof. exact async_eq_seq_stree_guard. Qed.
+Print Assumptions C02_uncaught_failure_is_the_outcome_of_value_stree_guard.
+
+Theorem C02_uncaught_failure_ends_value_stree_guard : forall P p n e,
+  pointwise P -> stree p -> evals p = Err e ->
+  let h := fst (create [] (FTask p) (st0 P)) in
+  let s1 := snd (create [] (FTask p) (st0 P)) in
+  (forall k, (k < n)%nat -> guard_fires P (run P k (start h s1)) = false) ->
+  forall o, c_mode (run P n (start h s1)) = MDone o -> o = Err e.
+Proof. exact uncaught_failure_stree_guard. Qed.
+Print Assumptions C02_uncaught_failure_ends_value_stree_guard.
+
+Theorem C02_sync_call_stree_guard : forall P, pointwise P -> forall p, stree p -> forall n t h k,
+  let h0 := fst (create [] (FTask p) (st0 P)) in
+  let s1 := snd (create [] (FTask p) (st0 P)) in
+  (forall j, (j < n)%nat -> guard_fires P (run P j (start h0 s1)) = false) ->
+  c_mode (run P n (start h0 s1)) = MRun t (Sync h k) ->
+  exists spec oh, spec h = Some oh /\ spec t = Some (evals (k oh)) /\ (forall o, stree (k o)) /\
+    (fnum t < fnum h)%Z /\ is_task h (c_st (run P n (start h0 s1))) /\
+    (forall q, get h (c_st (run P n (start h0 s1))) = Some (mkFut None (KTask (fresh_task q))) -> oh = evals q) /\
+    (computed h (c_st (run P n (start h0 s1))) = true -> oh = outcome_of h (c_st (run P n (start h0 s1)))) /\
+    c_mode (step P (run P n (start h0 s1))) = MValue h /\
+    c_frames (step P (run P n (start h0 s1))) = FValue t k :: c_frames (run P n (start h0 s1)).
+Proof. exact sync_call_stree_guard. Qed.
+Print Assumptions C02_sync_call_stree_guard.
+
+Theorem C02_sync_delivered_is_outcome_of_awaited_stree_guard : forall P, pointwise P -> forall p, stree p -> forall n o t k fr',
+  let h0 := fst (create [] (FTask p) (st0 P)) in
+  let s1 := snd (create [] (FTask p) (st0 P)) in
+  (forall j, (j < n)%nat -> guard_fires P (run P j (start h0 s1)) = false) ->
+  c_mode (step P (run P n (start h0 s1))) = MDeliver o ->
+  c_frames (step P (run P n (start h0 s1))) = FValue t k :: fr' ->
+  exists spec h, computed h (c_st (run P n (start h0 s1))) = true /\
+    o = outcome_of h (c_st (run P n (start h0 s1))) /\ spec h = Some o /\ (fnum t < fnum h)%Z /\
+    ((c_mode (run P n (start h0 s1)) = MValue h /\ c_frames (run P n (start h0 s1)) = FValue t k :: fr') \/
+     ((c_mode (run P n (start h0 s1)) = MWaitHead \/ c_mode (run P n (start h0 s1)) = MAfterExec) /\
+      c_frames (run P n (start h0 s1)) = FWait h :: FValue t k :: fr')).
+Proof. exact sync_deliver_origin_stree_guard. Qed.
+Print Assumptions C02_sync_delivered_is_outcome_of_awaited_stree_guard.
+
+Theorem C02_sync_return_continues_caller_stree_guard : forall P, pointwise P -> forall p, stree p -> forall n o t k fr',
+  let h0 := fst (create [] (FTask p) (st0 P)) in
+  let s1 := snd (create [] (FTask p) (st0 P)) in
+  (forall j, (j < n)%nat -> guard_fires P (run P j (start h0 s1)) = false) ->
+  c_mode (run P n (start h0 s1)) = MDeliver o -> c_frames (run P n (start h0 s1)) = FValue t k :: fr' ->
+  exists spec, utask (c_st (run P n (start h0 s1))) t /\ (forall x, stree (k x)) /\
+    spec t = Some (evals (k o)) /\
+    c_mode (step P (run P n (start h0 s1))) = MRun t (k o) /\
+    c_frames (step P (run P n (start h0 s1))) = fr'.
+Proof. exact sync_return_stree_guard. Qed.
+Print Assumptions C02_sync_return_continues_caller_stree_guard.
+
+Theorem C02_sync_call_returns_sequential_outcome_stree_guard : forall P, pointwise P -> forall p, stree p ->
+  forall n m t h k q o,
+  let c0 := start (fst (create [] (FTask p) (st0 P))) (snd (create [] (FTask p) (st0 P))) in
+  (forall j, (j < m)%nat -> guard_fires P (run P j c0) = false) -> (n < m)%nat ->
+  c_mode (run P n c0) = MRun t (Sync h k) ->
+  get h (c_st (run P n c0)) = Some (mkFut None (KTask (fresh_task q))) ->
+  c_mode (run P m c0) = MDeliver o -> c_frames (run P m c0) = FValue t k :: c_frames (run P n c0) ->
+  (forall i, (n < i < m)%nat ->
+     ~ (c_frames (run P i c0) = FValue t k :: c_frames (run P n c0) /\ exists o', c_mode (run P i c0) = MDeliver o')) ->
+  o = evals q /\
+  exists spec, spec t = Some (evals (k (evals q))) /\ c_mode (step P (run P m c0)) = MRun t (k (evals q)).
+Proof. exact sync_call_returns_evals_stree_guard. Qed.
+Print Assumptions C02_sync_call_returns_sequential_outcome_stree_guard.
+
+Theorem C02_sync_call_expression_returns_sequential_outcome_stree_guard : forall P, pointwise P -> forall p, stree p ->
+  forall n m t k q o,
+  let c0 := start (fst (create [] (FTask p) (st0 P))) (snd (create [] (FTask p) (st0 P))) in
+  (forall j, (j < m)%nat -> guard_fires P (run P j c0) = false) -> (n + 1 < m)%nat ->
+  c_mode (run P n c0) = MRun t (Let (FTask q) (fun h => Sync h k)) ->
+  c_mode (run P m c0) = MDeliver o -> c_frames (run P m c0) = FValue t k :: c_frames (run P n c0) ->
+  (forall i, (n + 1 < i < m)%nat ->
+     ~ (c_frames (run P i c0) = FValue t k :: c_frames (run P n c0) /\ exists o', c_mode (run P i c0) = MDeliver o')) ->
+  o = evals q /\
+  exists spec, spec t = Some (evals (k (evals q))) /\ c_mode (step P (run P m c0)) = MRun t (k (evals q)).
+Proof. exact sync_call_expr_returns_evals_stree_guard. Qed.
+Print Assumptions C02_sync_call_expression_returns_sequential_outcome_stree_guard.
